@@ -5,6 +5,11 @@ V = os.path.dirname(os.path.dirname(os.path.abspath(__file__)))
 props = [json.loads(l) for l in open(os.path.join(V, "properties.jsonl"))]
 TB = "Trusted: rustc's MIR construction and type checking (nightly 1.97, mir-opt-level=0), the checker's own abstract interpreter / rule code (validated against seeded mutants and benign edits), std collection semantics."
 CLAIMS = {
+ "C11": dict(
+   technique="type-resolved hash-order taint classification of every consumer of a HashMap/HashSet iterator reachable from validation; dominator rule + key extraction for the final sort; global-state / purity scan",
+   text="Static: every call whose receiver type is an adaptor chain over a std hash iterator, in all functions reachable from the entry points, is enumerated from type-checked MIR and must fall in a discharged class (order-insensitive, unique choice by minimum over distinct keys, find whose predicate implies equality with a loop-invariant, for-loop whose only effects are diagnostics re-ordered by the final sort, collect into a map with keys proven distinct); the final sort must be stable, last, and keyed on the whole start position (key closure tabulated); no statics, interior mutability, clock, environment or random source.",
+   note=TB + " Order of syntax diagnostics for tree-less files is lalrpop's (not decided).",
+   design="DESIGN.md section 4, C11"),
  "C06": dict(
    technique="decision-table extraction (abstract interpretation of MIR with map lookups as oracle predicates) for the fold closures and classification loops; walker visit sequences; per-category table of the 'used' set",
    text="Static, partial by design: the 'used' set is fed from a depth-complete traversal (inductive walker rule) and the resolver callback inserts the resolved key / the built-in's qualified name for every category; the duplicate-detection folds and the per-entry classification loops of check_imports and check_declared_parcelables are tabulated over their oracle predicates (occupied / vacant, defined, built-in, used, conflicting import) and compared with the statement: which diagnostic (kind, range on the statement's name or whole extent, back-reference), exactly once, and nothing else. The string contents of the sets are not decided.",
